@@ -9,6 +9,7 @@ import (
 	"errors"
 	"flag"
 	"fmt"
+	"hash/fnv"
 	"os"
 	"sort"
 	"strconv"
@@ -41,6 +42,50 @@ const (
 )
 
 var pkgKey = simapi.Key{Group: "pkg.crossplane.io", Kind: "Provider", Name: pkgName}
+
+// pkgKind is the package type of the current scenario (setFamily: by a hash of the scenario id): the package manager
+// is one generic reconciler set up three times; what it does must hold for Providers, Configurations and Functions
+// alike (their list / accessor helpers in apis/pkg/v1 are written out per type).
+var pkgKind = "Provider"
+
+func revKind() string { return pkgKind + "Revision" }
+
+func setFamily(id string) {
+	h := fnv.New32a()
+	_, _ = h.Write([]byte(strings.SplitN(id, "/", 2)[0]))
+	pkgKind = []string{"Provider", "Configuration", "Function"}[h.Sum32()%3]
+	pkgKey.Kind = pkgKind
+}
+
+func newPkg() pkgv1.Package {
+	switch pkgKind {
+	case "Configuration":
+		return &pkgv1.Configuration{}
+	case "Function":
+		return &pkgv1.Function{}
+	}
+	return &pkgv1.Provider{}
+}
+
+func newRev() pkgv1.PackageRevision {
+	switch pkgKind {
+	case "Configuration":
+		return &pkgv1.ConfigurationRevision{}
+	case "Function":
+		return &pkgv1.FunctionRevision{}
+	}
+	return &pkgv1.ProviderRevision{}
+}
+
+func newRevList() pkgv1.PackageRevisionList {
+	switch pkgKind {
+	case "Configuration":
+		return &pkgv1.ConfigurationRevisionList{}
+	case "Function":
+		return &pkgv1.FunctionRevisionList{}
+	}
+	return &pkgv1.ProviderRevisionList{}
+}
 
 func hexOf(d string) string    { return d + strings.Repeat("0", 64-len(d)) }
 func revName(d string) string  { return xpkg.FriendlyID(pkgName, hexOf(d)) }
@@ -127,7 +172,7 @@ func (w *world) post() map[string]any {
 		}
 	}
 	revs := []any{}
-	for _, r := range w.s.All(simapi.Key{Group: "pkg.crossplane.io", Kind: "ProviderRevision"}.GK()) {
+	for _, r := range w.s.All(simapi.Key{Group: "pkg.crossplane.io", Kind: revKind()}.GK()) {
 		num, _, _ := unstructured.NestedInt64(r.Object, "spec", "revision")
 		st, _, _ := unstructured.NestedString(r.Object, "spec", "desiredState")
 		ctrl := "none"
@@ -163,13 +208,13 @@ func (w *world) seenCopy() map[string]any {
 
 func (w *world) classify(c *simapi.Call) (abs string) {
 	switch c.Key.Kind {
-	case "Provider":
+	case pkgKind:
 		v := c.Verb
 		if c.Sub != "" {
 			v += "-" + c.Sub
 		}
 		return v + ":pkg"
-	case "ProviderRevision":
+	case revKind():
 		if c.Verb == "list" {
 			return "list:rev"
 		}
@@ -207,10 +252,10 @@ func (w *world) onEvent(e *simapi.Event) {
 		w.seen["listed"] = l
 	}
 	target := "none"
-	if e.Kind == "ProviderRevision" && e.Verb != "list" {
+	if e.Kind == revKind() && e.Verb != "list" {
 		target = w.digestOf(e.Name)
 	}
-	kind := map[string]string{"Provider": "pkg", "ProviderRevision": "rev"}[e.Kind]
+	kind := map[string]string{pkgKind: "pkg", revKind(): "rev"}[e.Kind]
 	if kind == "" {
 		kind = "other"
 	}
@@ -249,7 +294,7 @@ func (w *world) env(e replay.Entry) {
 	case "reg":
 		w.reg[e.O] = e.F
 	case "finalize":
-		w.s.Mutate(simapi.Key{Group: "pkg.crossplane.io", Kind: "ProviderRevision", Name: revName(e.O)}, func(u *unstructured.Unstructured) {
+		w.s.Mutate(simapi.Key{Group: "pkg.crossplane.io", Kind: revKind(), Name: revName(e.O)}, func(u *unstructured.Unstructured) {
 			if u.GetDeletionTimestamp() != nil {
 				u.SetFinalizers(nil)
 			}
@@ -261,6 +306,7 @@ func (w *world) env(e replay.Entry) {
 }
 
 func newWorld(tw *trace.Writer, id string, init map[string]any) *world {
+	setFamily(id)
 	sch := runtime.NewScheme()
 	_ = pkgv1.AddToScheme(sch)
 	_ = pkgv1beta1.AddToScheme(sch)
@@ -277,34 +323,37 @@ func newWorld(tw *trace.Writer, id string, init map[string]any) *world {
 	}
 	w.withFin, _ = init["withFin"].(bool)
 	ip := init["pkg"].(map[string]any)
-	p := &pkgv1.Provider{ObjectMeta: metav1.ObjectMeta{Name: pkgName}}
-	p.Spec.Package = source(ip["src"].(string))
+	p := newPkg()
+	p.SetName(pkgName)
+	p.SetSource(source(ip["src"].(string)))
 	if l := int64(ip["limit"].(float64)); l >= 0 {
-		p.Spec.RevisionHistoryLimit = ptr.To(l)
+		p.SetRevisionHistoryLimit(ptr.To(l))
 	}
 	pp := corev1.PullPolicy(ip["pull"].(string))
-	p.Spec.PackagePullPolicy = &pp
+	p.SetPackagePullPolicy(&pp)
 	pu := s.Put(p)
 	// pre-existing revisions controlled by a foreign owner (C02 placement)
 	if fs, ok := init["foreign"].([]any); ok {
 		for _, f := range fs {
-			r := &pkgv1.ProviderRevision{ObjectMeta: metav1.ObjectMeta{Name: revName(f.(string)), Labels: map[string]string{pkgv1.LabelParentPackage: pkgName},
-				OwnerReferences: []metav1.OwnerReference{{APIVersion: "pkg.crossplane.io/v1", Kind: "Provider", Name: "other", UID: "foreign-uid", Controller: ptr.To(true)}}}}
-			r.Spec.Revision = 1
-			r.Spec.DesiredState = pkgv1.PackageRevisionInactive
+			r := newRev()
+			r.SetName(revName(f.(string)))
+			r.SetLabels(map[string]string{pkgv1.LabelParentPackage: pkgName})
+			r.SetOwnerReferences([]metav1.OwnerReference{{APIVersion: "pkg.crossplane.io/v1", Kind: pkgKind, Name: "other", UID: "foreign-uid", Controller: ptr.To(true)}})
+			r.SetRevision(1)
+			r.SetDesiredState(pkgv1.PackageRevisionInactive)
 			if a, _ := init["foreignAct"].(bool); a {
-				r.Spec.DesiredState = pkgv1.PackageRevisionActive
+				r.SetDesiredState(pkgv1.PackageRevisionActive)
 			}
-			r.Spec.Package = repo + "@sha256:" + hexOf(f.(string))
+			r.SetSource(repo + "@sha256:" + hexOf(f.(string)))
 			s.Put(r)
 		}
 	}
 	_ = pu
 	mgr := &fakes.Manager{Client: c, Sch: sch}
 	w.rec = manager.NewReconciler(mgr,
-		manager.WithNewPackageFn(func() pkgv1.Package { return &pkgv1.Provider{} }),
-		manager.WithNewPackageRevisionFn(func() pkgv1.PackageRevision { return &pkgv1.ProviderRevision{} }),
-		manager.WithNewPackageRevisionListFn(func() pkgv1.PackageRevisionList { return &pkgv1.ProviderRevisionList{} }),
+		manager.WithNewPackageFn(newPkg),
+		manager.WithNewPackageRevisionFn(newRev),
+		manager.WithNewPackageRevisionListFn(newRevList),
 		manager.WithRevisioner(manager.NewPackageRevisioner(&fetcher{w: w})),
 		manager.WithConfigStore(xpkg.NewImageConfigStore(c, "crossplane-system")),
 	)
@@ -351,7 +400,7 @@ func (w *world) reconcile(al *replay.Aligner, sw *sweep) (calls int) {
 	al.Finish()
 	if w.withFin {
 		// the revision controller adds its finalizer to new revisions
-		for _, r := range w.s.All(simapi.Key{Group: "pkg.crossplane.io", Kind: "ProviderRevision"}.GK()) {
+		for _, r := range w.s.All(simapi.Key{Group: "pkg.crossplane.io", Kind: revKind()}.GK()) {
 			if r.GetDeletionTimestamp() == nil && len(r.GetFinalizers()) == 0 {
 				w.s.Mutate(simapi.KeyOf(r), func(u *unstructured.Unstructured) { u.SetFinalizers([]string{"revision.pkg.crossplane.io"}) })
 			}
